@@ -464,6 +464,16 @@ func (e pathEnv) record(ctx *reachCtx, atom ssa.Value, truth bool) {
 // decides v2 == K1 later). If stop != nil, blocks for which stop returns true
 // are not expanded.
 func ForwardReach(from *ssa.BasicBlock, assign map[ssa.Value]bool, stop func(*ssa.BasicBlock) bool) map[*ssa.BasicBlock]bool {
+	return forwardReach(from, assign, stop, nil)
+}
+
+// ForwardReachEdges is ForwardReach that also reports the control-flow edges taken, as pairs of block indices.
+func ForwardReachEdges(from *ssa.BasicBlock, assign map[ssa.Value]bool) (map[*ssa.BasicBlock]bool, map[[2]int]bool) {
+	edges := map[[2]int]bool{}
+	return forwardReach(from, assign, nil, edges), edges
+}
+
+func forwardReach(from *ssa.BasicBlock, assign map[ssa.Value]bool, stop func(*ssa.BasicBlock) bool, edges map[[2]int]bool) map[*ssa.BasicBlock]bool {
 	fn := from.Parent()
 	ctx := newReachCtx(fn)
 	type state struct {
@@ -533,6 +543,9 @@ func ForwardReach(from *ssa.BasicBlock, assign map[ssa.Value]bool, stop func(*ss
 						}
 					}
 				}
+				if edges != nil {
+					edges[[2]int{b.Index, s.Index}] = true
+				}
 				k := fmt.Sprintf("%d|%s", s.Index, env.key())
 				if !seenState[k] {
 					seenState[k] = true
@@ -579,6 +592,9 @@ func ForwardReach(from *ssa.BasicBlock, assign map[ssa.Value]bool, stop func(*ss
 					}
 				}
 			}
+			if edges != nil {
+				edges[[2]int{b.Index, s.Index}] = true
+			}
 			k := fmt.Sprintf("%d|%s", s.Index, env.key())
 			if seenState[k] {
 				continue
@@ -601,6 +617,15 @@ func ForwardReach(from *ssa.BasicBlock, assign map[ssa.Value]bool, stop func(*ss
 		}
 		for b := range seen {
 			all(b)
+		}
+		if edges != nil {
+			for _, b := range fn.Blocks {
+				for _, s := range b.Succs {
+					if seen[b] && !backEdge(b, s) {
+						edges[[2]int{b.Index, s.Index}] = true
+					}
+				}
+			}
 		}
 	}
 	return seen
